@@ -409,3 +409,11 @@ def sym_global_state(xs, ys):
         _set_mode(v if v in xs else None)
         out.append(_mode if v in ys else -1)
     return (out, _calls, _mode)
+
+
+def sym_operator_reduce(xs, ys):
+    import functools, operator
+    sets = [xs, ys, {0, 3}]
+    u = functools.reduce(operator.or_, sets, set())
+    i = functools.reduce(operator.and_, sets)
+    return (u, i, functools.reduce(lambda a, b: a + b, [len(xs), len(ys), 1]), operator.not_(xs))
